@@ -60,6 +60,9 @@ TREES["two_tmpfs"] = ([{"p": "r/m1", "k": "tmpfs"}, {"p": "r/m2", "k": "tmpfs"},
                        {"p": "r/m1/one", "k": "file", "c": ["base", 20000, 4]}, {"p": "r/m2/one", "k": "file", "c": ["base", 20000, 4]},
                        {"p": "r/m1/two", "k": "file", "c": ["base", 20000, 4]}, {"p": "r/m2/other", "k": "file", "c": ["flip", 20000, 4, 19999]}],
                       [], "ssd", False)
+# MANY files in one size class (200 files of 17 bytes, 100 pairs): hashing work may be handed out in batches; a fault on
+# one file at the start / in the middle / around multiples of 64 / at the end of the visiting order concerns that file
+TREES["many"] = ([{"p": "r/m%d/f%03d" % (i % 3, i), "k": "file", "c": ["base", 17, i // 2 + 1]} for i in range(200)], [], "ssd", False)
 ROOTS = {"three_roots": ["r", "r2", "r3"], "ext4_hdd_overlap": ["r", "r/d"]}
 ERRNOS = ["EACCES", "EIO", "ENOENT"]
 
@@ -69,7 +72,9 @@ def prepare(tier):
 
 
 def cases(tier, seed):
-    out = [{"tree": t, "pairs": False, "tier": tier} for t in TREES]
+    out = [{"tree": t, "pairs": False, "tier": tier} for t in TREES if t != "many"]
+    for flt in ([], ["--rf-over", "0"]):
+        out.append({"tree": "many", "pairs": False, "tier": tier, "filter": flt, "select": "opens"})
     # the same question when unique / under-replicated files are searched: an unreadable file must not be reported
     # as unique, and its former duplicates must be judged as if it were absent
     for flt in (["--unique"], ["--rf-under", "3"], ["--rf-over", "0"]):
@@ -308,6 +313,20 @@ def evaluate(case):
         if case["pairs"]:
             plan = [(k1, "EIO", k2) for k1 in range(len(events)) for k2 in range(k1 + 1, len(events))
                     if not is_validation(k1) and not is_validation(k2)]
+        if case.get("select") == "opens":
+            # the hashing opens only (the first open of each file), at sampled positions of the visiting order
+            seen_p, first_open = set(), []
+            for k, ev in enumerate(events):
+                if ev.call == "open" and ev.path in info and ev.path not in seen_p and not is_validation(k):
+                    seen_p.add(ev.path)
+                    first_open.append(k)
+            n_o = len(first_open)
+            pos = sorted(set(x for x in (0, 1, 31, 62, 63, 64, 65, 100, 127, 128, n_o - 2, n_o - 1) if 0 <= x < n_o)
+                         if case["tier"] == "quick" else range(n_o))
+            ks = set(first_open[x] for x in pos)
+            plan = [(k, e, k2) for (k, e, k2) in plan if k in ks and ((e == "EACCES" and k2 is None) or (e == "ENOENT" and k2 is not None))]
+            if len(plan) < 2 * len(pos):
+                raise C.MachineryError("tree %s: only %d fault plans for %d sampled opens" % (case["tree"], len(plan), len(pos)))
         if case.get("only"):
             plan = [tuple(case["only"])]
         for (k, e, k2) in plan:
@@ -431,3 +450,7 @@ def finish(stats, tier):
 
 
 RULE += ' Since round 11 also: every read fault together with a fault of the next / next but one call; a warning is required whenever EIO/EACCES faults leave an entry out.'
+
+
+RULE += (" Since round 12 also: 200 files in one size class, faults (EACCES; ENOENT on both opens) on the hashing open of the "
+         "files at positions 0, 1, 31, 62..65, 100, 127, 128 and the last two of the visiting order (thorough: every position).")
